@@ -17,7 +17,8 @@ CONFIGS = {      # cell sizes are dyadic so that grid coordinates are exact in b
     'nondiv': ((0.0, 0.0, 3.0, 2.0), (0.7, 0.9), 0.0),      # resolution does not divide the extent: 4 x 2 cells of 0.75 x 1
     'tall':  ((0.0, 0.0, 2.0, 8.0), (0.5, 4.0), 0.0),       # dX = 0.5 << dY = 4: 4 x 2 cells
     'one':   ((0.0, 0.0, 2.0, 2.0), (3.0, 3.0), 0.5),       # a single cell
-    'narrow': ((0.0, 0.0, 2.0, 4.0), (1.0, 1.0), 0.0),      # more rows than columns: 2 x 4 unit cells
+    'narrow': ((0.0, 0.0, 2.0, 4.0), (1.0, 1.0), 0.0),
+    'coarser': ((0.0, 0.0, 4.0, 2.0), (2.0, 5.0), 0.0),     # a cell height larger than the extent: 2 x 1 cells of 2 x 2      # more rows than columns: 2 x 4 unit cells
     'fine': ((0.0, 0.0, 16.0, 16.0), (1.0, 1.0), 0.0),       # scale probes: 16 x 16 unit cells (long segments over > 64 cells, radii of >= 5 units, sparse inventory)
     'default': ((0.0, 0.0, 100.0, 50.0), None, 0.0),        # default resolution: 100 x 50 unit cells; point queries in two corner windows only
 }
@@ -74,12 +75,12 @@ class C08(Check):
         return dict(grids=sorted(self._cfgs(tier)), registration='one symbolic 2-vertex feature (thorough: also 3 vertices)', queries=['point', 'segment', 'track (2 legs)', 'neighbourhood by converted ground distance'])
 
     def _cfgs(self, tier):
-        return ['sq1', 'tall', 'narrow'] if tier == 'quick' else ['sq1', 'rect', 'nondiv', 'tall', 'one', 'narrow']
+        return ['sq1', 'tall', 'narrow', 'coarser'] if tier == 'quick' else ['sq1', 'rect', 'nondiv', 'tall', 'one', 'narrow', 'coarser']
 
     def jobs(self, tier, seed):
         js = []
         q = tier == 'quick'
-        ncell = dict(sq1=6, rect=16, nondiv=8, tall=8, one=1, narrow=8)
+        ncell = dict(sq1=6, rect=16, nondiv=8, tall=8, one=1, narrow=8, coarser=2)
         for c in self._cfgs(tier):
             for k in range(ncell[c]):       # one job per cell of the first vertex (the jobs partition the input space)
                 js.append(dict(kind='register', cfg=c, nv=2, c0=k))
